@@ -320,8 +320,22 @@ inline void encode_rw(const Node& n, std::string& o, vf::Chooser& c, const RwOpt
         unsigned cnt = (unsigned)c.range(1, 2);
         for (unsigned i = 0; i < cnt; i++) {
           std::string e;
-          // unknown integer key: |key| >= 64 so it never collides with RFC 8618 or library keys
-          if (c.coin()) put_head_min(e, UINT, 64 + c.range(0, 1000) + (uint64_t)i * 2000);
+          // unknown integer key: |key| >= 64 so it never collides with RFC 8618 or library keys.  One third of the keys are
+          // "aliases": they agree with an assigned key in their low 8/16/32 bits (k + 256*m, k + 2^16*m, k + 2^32*m and the
+          // negative counterparts), which a reader that narrows the key would confuse with a known member.
+          uint64_t km = c.range(0, 5);
+          if (km == 4) {
+            static const uint64_t STEP[] = {256ull, 65536ull, 0x100000000ull, 0x10000000000ull};
+            uint64_t st = STEP[c.range(0, 3)];
+            put_head_min(e, UINT, c.range(0, 16) + st * (c.range(1, 3) + (uint64_t)i * 4));
+          } else if (km == 5) {
+            static const uint64_t STEP[] = {256ull, 65536ull, 0x100000000ull};
+            uint64_t st = STEP[c.range(0, 2)];
+            // key = -(st*m) + k  ->  CBOR argument = -1 - key
+            uint64_t mag = st * (c.range(1, 3) + (uint64_t)i * 4) - c.range(0, 16);
+            put_head_min(e, NINT, mag - 1);
+          }
+          else if (km <= 1) put_head_min(e, UINT, 64 + c.range(0, 1000) + (uint64_t)i * 2000);
           else put_head_min(e, NINT, 63 + c.range(0, 1000) + (uint64_t)i * 2000);
           GenOpts go; go.max_depth = ro.unknown_depth < 3 ? ro.unknown_depth : 3;
           Node v = gen_item(c, go);
@@ -355,6 +369,29 @@ inline void encode_rw(const Node& n, std::string& o, vf::Chooser& c, const RwOpt
       else put_head_min(o, SIMPLE, n.arg);
       break;
   }
+}
+
+// RFC 8618: block-parameters-index is optional with default 0.  Removes the member from block preambles where it is 0
+// (a semantics-preserving rewrite of a C-DNS file tree); returns the number of removals.
+inline unsigned drop_default_bp_index(Node& root, vf::Chooser& c) {
+  unsigned n = 0;
+  if (root.major != ARR || root.kids.size() != 3 || root.kids[2].major != ARR) return 0;
+  for (auto& blk : root.kids[2].kids) {
+    if (blk.major != MAP) continue;
+    for (size_t i = 0; i + 1 < blk.kids.size(); i += 2) {
+      if (!(blk.kids[i].is_uint() && blk.kids[i].arg == 0 && blk.kids[i + 1].major == MAP)) continue;
+      Node& pre = blk.kids[i + 1];
+      for (size_t j = 0; j + 1 < pre.kids.size(); j += 2) {
+        if (pre.kids[j].is_uint() && pre.kids[j].arg == 1 && pre.kids[j + 1].is_uint() && pre.kids[j + 1].arg == 0 && c.coin()) {
+          pre.kids.erase(pre.kids.begin() + j, pre.kids.begin() + j + 2);
+          pre.arg = pre.kids.size() / 2;
+          n++;
+          break;
+        }
+      }
+    }
+  }
+  return n;
 }
 
 // ---- pretty printer (diagnostic-notation-like, truncated) ---------------------------------
